@@ -542,6 +542,10 @@ func TestVerifC06(t *testing.T) {
 				harnessErrs = append(harnessErrs, fmt.Sprintf("worker watchdog expired on %v", path))
 				return nil
 			}
+			if r.Crashed && !vrt.CrashInCodeUnderTest(r.Stderr) {
+				harnessErrs = append(harnessErrs, fmt.Sprintf("worker died outside the code under test on %v: %.300s", path, r.Stderr))
+				return nil
+			}
 			if r.Crashed {
 				res.Violate("end/process-crash", fmt.Sprintf("mode %s path %v: the worker process died\n%s", mode, path, r.Stderr), vfFwdJob{Sc: sc, Path: path})
 				return nil
